@@ -328,7 +328,8 @@ fn extract_source_map<R: Read>(
                     })
                     .ok()
                     .and_then(|it| match it {
-                        DecodedMap::Regular(source) => Some(source),
+                        // a map without mappings can not be chained: every position would be lost
+                        DecodedMap::Regular(source) if source.get_token_count() > 0 => Some(source),
                         _ => None,
                     });
             }
